@@ -13,13 +13,13 @@ CHECKS = {
     },
     "C02": {
         "technique": "TLA+ spec (TermAlgebra.tla: set-valued denotation + transcription of the operator overloads) model checked with TLC over every formula up to an operator bound; each exported formula replayed into model_description; random deeper formulas judged by TLC (TermAlgebra_Trace)",
-        "text": "Bounded-exhaustive: a stack machine enumerates every formula of the documented language (term expressions over + - : * / **, intercept literals as additive items of the right-hand side and of effect sides, group terms) up to 4 operators over 3 atoms incl. a call with a literal argument (quick: 135k formulas; thorough: 4 atoms, and 5 operators over 2 atoms); TLC checks that the class-by-class transcription of terms.py refines the set semantics outside two named deviation classes; every formula is then resolved by the real code, with and without response, and compared with the Abs denotation. Random formulas of depth <= 7 with up to 5 additive items are resolved by the real code and judged by TLC.",
+        "text": "Bounded-exhaustive: a stack machine enumerates every formula of the documented language (term expressions over + - : * / **, intercept literals as additive items of the right-hand side and of effect sides, group terms) up to 4 operators over 3 atoms incl. a call with a literal argument (quick: 135k formulas; thorough: 4 atoms, and 5 operators over 2 atoms); TLC checks that the class-by-class transcription of terms.py (terms compared as sets of components, as the code does since the term-identity repair) refines the set semantics outside one named deviation class; every formula is then resolved by the real code, with and without response, and compared with the Abs denotation. Random formulas of depth <= 7 with up to 5 additive items are resolved by the real code and judged by TLC.",
         "ref": "DESIGN.md §3.4, §4 C02",
-        "note": "Trusted: TLC, fv/project.py:model_abs, the renderer in fv/drivers/c02.py. Inputs on which the code's own algorithm answers differently once a:b and b:a are identified are not judged; '-' applied to a chain without a term and effect sides that denote nothing are outside the domain. Open findings KF_C02_late_literal, KF_C02_mul_equal_models.",
+        "note": "Trusted: TLC, fv/project.py:model_abs, the renderer in fv/drivers/c02.py. A term is the set of its factors (a:b = b:a), for the code as for the specification; '-' applied to a chain without a term and effect sides that denote nothing are outside the domain. Open finding KF_C02_late_literal.",
     },
     "C04": {
         "technique": "TLA+ spec (Design.tla: cell-level meaning of labels, label order, slices) model checked with TLC on a small scope; every TLC-generated (frame, formula) case replayed into design_matrices and compared cell by cell; recorded builds on random frames judged by TLC (Design_Trace)",
-        "text": "TLC enumerates every frame of the small scope (3-4 rows, factors with up to 3 levels) x 14 formula shapes, checks the Abs design function's theorems and exports the complete expected design (labels, cells, slices); the real code is run on each and must agree exactly. Random worlds (3-30 rows, str / Categorical / ordered / integer-via-C columns, unequal level counts, numeric calls, interactions up to arity 3 in random factor order, group terms) are built by the real code and every recorded design is judged by TLC: each cell equals the meaning of its label, labels and columns agree in number and order, levels sorted or as declared, cartesian label order with the first factor slowest.",
+        "text": "TLC enumerates every frame of the small scope (3-4 rows, factors with up to 3 levels) x 14 formula shapes, checks the Abs design function's theorems and exports the complete expected design (labels, cells, slices); the real code is run on each and must agree exactly. Random worlds (3-30 rows, str / Categorical / ordered / integer-via-C columns, unequal level counts, numeric calls, interactions up to arity 3 in random factor order, group terms) are built by the real code and every recorded design is judged by TLC: each cell equals the meaning of its label, labels and columns agree in number and order, levels sorted or as declared, cartesian label order with the first factor slowest. The same designs are then evaluated on new data (all training rows, reordered and partly repeated) and the resulting matrices are judged against the same labels.",
         "ref": "DESIGN.md §3.7, §4 C04",
         "note": "Trusted: TLC, fv/design.py and fv/gen.py (materialisation of abstract frames, parsing of label strings with the generator's name tables). Integer-valued data only (exact products). Builds that raise are counted, not judged here.",
     },
@@ -31,7 +31,7 @@ CHECKS = {
     },
     "C15": {
         "technique": "TLA+ spec (Design.tla response meaning; Design_Trace judge with build / rows / refuse events) checked with TLC; small-scope cases replayed; recorded response forms judged by TLC",
-        "text": "Small-scope S->C incl. a categorical response; recorded builds with numeric / str / Categorical / ordered / call responses judged cell by cell; subset notation y[ident], y['quoted'], y[\"quoted\"] must be 1 exactly where y equals the level; prop/p/proportion with column or constant trials must give successes and trials and refuse invalid data; predictors must be identical under a different response (rows relation judged by TLC); multi-term responses must be refused; no response => no response matrix.",
+        "text": "Small-scope S->C incl. a categorical response; recorded builds with numeric / str / Categorical / ordered / call responses judged cell by cell; subset notation y[ident], y['quoted'], y[\"quoted\"] must be 1 exactly where y equals the level, also for a level that never occurs, is a declared but unobserved category, or occurs only on dropped rows (an all-zero column); prop/p/proportion with column or constant trials must give successes and trials and refuse invalid data; predictors must be identical under a different response (rows relation judged by TLC); multi-term responses must be refused; no response => no response matrix.",
         "ref": "DESIGN.md §3.7, §4 C15",
         "note": "Trusted: as C04; the label of a subset-notation response is taken from the formula text.",
     },
@@ -55,7 +55,7 @@ CHECKS = {
     },
     "C07": {
         "technique": "TLA+ spec of API-call histories (Lifecycle.tla: designs own cells, operations have write sets) model checked with TLC over all histories up to a bound; every TLC-generated history and random longer ones are run against the real code with per-call cell fingerprints and fresh-process references; each recorded call judged by TLC (Lifecycle_Trace)",
-        "text": "TLC explores every history of build / evaluate-common / evaluate-group / set-config (3 formulas x 2 training frames x new frames with and without unseen levels x 3 modes + an undocumented value) up to length 3 (quick, 1.4k maximal histories) / 4 (thorough) and proves Frozen, HistoryIndependent and ConfigDiscipline from the write sets; each maximal history is replayed: after every call all cells reachable from every live design, every earlier result, the caller's frames and namespace and the config are re-fingerprinted (writes outside the write set are violations) and the outcome is compared with the same single operation in a process forked from a pristine template. Random histories of up to 25 calls with up to 4 live designs add prints and model_description calls.",
+        "text": "TLC explores every history of build / evaluate-common / evaluate-group / set-config (3 formulas x 2 training frames x new frames with and without unseen levels x 3 modes + an undocumented value) up to length 3 (quick, 1.4k maximal histories) / 4 (thorough) and proves Frozen, HistoryIndependent and ConfigDiscipline from the write sets; each maximal history is replayed: after every call all cells reachable from every live design, every earlier result, the caller's frames and namespace and the config are re-fingerprinted (writes outside the write set are violations) and the outcome is compared with the same single operation in a process forked from a pristine template (a newly started interpreter that has imported formulae and never run it). Random histories of up to 25 calls with up to 4 live designs add prints and model_description calls.",
         "ref": "DESIGN.md §3.8, §4 C07",
         "note": "Trusted: fv/cells.py (object-graph walk), fv/fresh.py (fork server), TLC. Outcomes are compared as digests of matrices rounded to 1e-10.",
     },
@@ -67,25 +67,25 @@ CHECKS = {
     },
     "C03": {
         "technique": "TLA+ spec (Contrasts.tla: atom theory = Abs; transcription of pick_contrast / _get_encoding_groups / add_extra_terms / Model.eval = Impl) model checked with TLC over every ordered family of terms; every family replayed into design_matrices on complete-factorial data and decided by exact integer rank computations; recorded pick_contrasts calls judged by TLC against the spec action",
-        "text": "TLC enumerates every ordered family of <= 3 terms (<= 3 factors each) over {f,g,h,x} with and without intercept (4760), families with swapped factor orders over {f,g,h,x,z}, and (thorough) all families over four categorical factors, and proves that the modelled algorithm covers every required atom exactly once (the same model with the repairs switched off yields the pinned tree's counterexamples). Each exported family is built by the real code on replicated complete-factorial data with random level counts 2..4, as plain variables and as C/T/S/scale/center/bs/poly atoms with random factor order, and checked with exact ranks: rank(X) = ncol(X) = sum over atoms of prod(levels-1)*widths and rank([X B]) = rank(B) for the full-indicator basis B built from the family. Recorded pick_contrasts calls of random builds must equal the spec action PickGroup (drift only).",
+        "text": "TLC enumerates every ordered family of <= 3 terms (<= 3 factors each) over {f,g,h,x} with and without intercept (4760), families with swapped factor orders over {f,g,h,x,z}, every family of <= 2 terms of arity <= 4 over four categorical factors (thorough: <= 4 terms), 38 spellings with operators incl. terms reached twice with their factors in another order, and proves that the modelled algorithm covers every required atom exactly once (the same model with the repairs switched off yields the pinned tree's counterexamples). Each exported family is built by the real code on replicated complete-factorial data with random level counts 2..4, as plain variables and as C/T/S/scale/center/bs/poly atoms with random factor order, and checked with exact ranks: rank(X) = ncol(X) = sum over atoms of prod(levels-1)*widths and rank([X B]) = rank(B) for the full-indicator basis B built from the family. Recorded pick_contrasts calls of random builds must equal the spec action PickGroup (drift only).",
         "ref": "DESIGN.md §3.5, §4 C03",
         "note": "Trusted: TLC, fv/rank.py (mod-p elimination with two primes, exact Bareiss on disagreement), numpy SVD with a gap test for float atoms (unclear gaps are counted, not judged), the data generator (replication >= 2 + 3 x numeric width, distinct numeric values). Families are sets of terms.",
     },
     "C05": {
         "technique": "TLA+ spec: Design.tla (block structure, slot order, cell meaning of e|g[l] labels) and Contrasts.tla (atom theory applied to the effect-side family of each grouping factor) model checked with TLC; small-scope replay, recorded builds judged by TLC, effect families decided by exact ranks",
-        "text": "Cell-level: Design_MC group formulas replayed exactly; random builds with group terms (intercept, numeric, categorical, call and interaction effects; single, interaction, sum and C() grouping expressions; the same effect under two factors) judged by TLC: every cell equals the effect value on the rows of its group and 0 elsewhere, group slots in level order with the effect fastest, labels = columns. Coding: every ordered family of <= 2 effect terms over {f,h,x} with and without '0 +', for grouping expressions g, g:k, C(g), on replicated fully crossed data: the columns of the grouping factor must have full rank and span indicator(g) (x) full effect coding (exact integer ranks).",
+        "text": "Cell-level: Design_MC group formulas replayed exactly; random builds with group terms (intercept, numeric, categorical, call and interaction effects; single, interaction, sum and C() grouping expressions; the same effect under two factors) judged by TLC: every cell equals the effect value on the rows of its group and 0 elsewhere, group slots in level order with the effect fastest, labels = columns. Coding: every ordered family of <= 2 effect terms over {f,h,x} with and without '0 +', for grouping expressions g, g:k, C(g) and the distributing forms (e | g + k), (e | g/k), written jointly, as separate group terms in random order and with the group intercept left implicit, on replicated fully crossed data: the columns of each grouping factor must have full rank and span indicator(g) (x) full effect coding (exact integer ranks).",
         "ref": "DESIGN.md §3.5, §3.7, §4 C05",
         "note": "Trusted: as C03/C04. Open finding KF_C05_effect_coding: families on which the code's simplified rule (spec predicate SimpleRuleExact) is not an exact cover.",
     },
     "C13": {
         "technique": "TLA+ spec (Coding.tla: validity predicates with exact fraction-free ranks = Abs; index-formula transcription of categorical.py = Impl) model checked with TLC for every size and reference; spec matrices compared with the real Treatment/Sum objects; real matrices judged by TLC; option handling replayed through design_matrices against the spec's matrices; interchangeability through Contrasts.tla + exact ranks",
-        "text": "TLC proves for every n <= 8 (quick) / 12 (thorough) and every reference / omitted level that the transcribed constructions satisfy the validity predicates (indicator columns with zero reference row; zero column sums with the omitted level coded -1; k = n-1; rank n together with the constant; full codings of rank n; labels name the levels) and the real Treatment/Sum outputs must equal the spec's matrices; the real matrices for n <= 12 are judged by TLC directly. Every permutation of <= 4 (5) levels passed as levels= x every reference x 10 spellings of C/T/S (incl. defaults and the T = C(Treatment), S = C(Sum) synonyms) x with/without intercept is built by the real code and compared with the spec's rows and level labels. Swapping codings never changes the column space: C03's exact-rank replay with variable / C / T(ref) / S / C(Sum) atoms.",
+        "text": "TLC proves for every n <= 8 (quick) / 12 (thorough) and every reference / omitted level that the transcribed constructions satisfy the validity predicates (indicator columns with zero reference row; zero column sums with the omitted level coded -1; k = n-1; rank n together with the constant; full codings of rank n; labels name the levels) and the real Treatment/Sum outputs must equal the spec's matrices; the real matrices for n <= 12 are judged by TLC directly. Every permutation of <= 4 (5) levels passed as levels= x every reference x string and integer level values (incl. 0, not in first place) x 10 spellings of C/T/S (incl. defaults and the T = C(Treatment), S = C(Sum) synonyms) x with/without intercept is built by the real code and compared with the spec's rows and level labels. Swapping codings never changes the column space: C03's exact-rank replay with variable / C / T(ref) / S / C(Sum) atoms.",
         "ref": "DESIGN.md §3.6, §4 C13",
         "note": "Trusted: TLC integer arithmetic (32-bit; determinants of 0/±1 matrices up to 13x13 stay far below 2^31), fv/rank.py.",
     },
     "C11": {
         "technique": "TLA+ spec (Scopes.tla: ordered scope chain, one action per probe) model checked with TLC over the complete configuration space; every terminal state replayed into design_matrices through synthetic caller modules with sentinels",
-        "text": "Complete enumeration: all 1536 configurations (which of data / built-ins / caller locals / caller globals / extra_namespace define the name; decoy definitions in the locals and globals of frames that env does not select; role argument or callee; plain, back-quoted or dotted name; env 0..3). TLC checks FirstMatchWins, DecoysIrrelevant and NoShadowing on the probe-by-probe machine and exports the winner of each configuration; the harness builds four nested callers in four synthetic modules, plants distinguishable sentinels and observes which object reaches a recording function (argument role) or gets called (callee role, dotted via attribute access); an undefined name must raise. The built-in scope is probed with a name of each registry (transforms and encodings: 2304 replays), and a logging extra_namespace records whether the last scope was asked: Scopes_Trace checks that it is probed iff no earlier scope defines the name (path conformance).",
+        "text": "Complete enumeration: all 3072 configurations (which of data / built-ins / caller locals / caller globals / extra_namespace define the name; decoy definitions in the locals and globals of frames that env does not select and in Python's own built-in namespace (a name spelled like max / abs); role argument or callee; plain, back-quoted or dotted name; env 0..3). TLC checks FirstMatchWins, DecoysIrrelevant and NoShadowing on the probe-by-probe machine and exports the winner of each configuration; the harness builds four nested callers in four synthetic modules, plants distinguishable sentinels and observes which object reaches a recording function (argument role) or gets called (callee role, dotted via attribute access); an undefined name must raise. The built-in scope is probed with a name of each registry (transforms and encodings: 4608 replays), and a logging extra_namespace records whether the last scope was asked: Scopes_Trace checks that it is probed iff no earlier scope defines the name (path conformance).",
         "ref": "DESIGN.md §3.9, §4 C11",
         "note": "Trusted: the sentinel harness fv/drivers/c11.py (a back-quoted name that is not an identifier cannot be a Python local: that scope is treated as not defining it).",
     },
@@ -93,19 +93,19 @@ CHECKS = {
         "technique": "TLA+ spec (PyExpr.tla: Python's expression grammar = Abs; Grammar.tla's transcription of the formula parser = Impl) model checked with TLC (difference theorem) over every short argument token string; each Python expression replayed through formulae and through CPython's eval with recording operands; recorded evaluations of random expressions judged by TLC (PyExpr_Trace); spec tree cross-checked with the ast module",
         "text": "TLC enumerates every token string up to 5 tokens over {name, number, + - * / ** ( ) <} and up to 7 tokens over {name, number, + * ** ( )} (1.07M strings), proves that every expression of the Python fragment is accepted by the formula parser and that the two trees differ exactly on the PowIssue class, and exports the Python expressions; each is evaluated with recording operands inside a call through formulae and with eval(), and the received operator trees / constant values must be equal; the term name must be whitespace-invariant and spell the same Python AST as the source. Random expressions of depth <= 6 with random whitespace are evaluated by the real code and the received tree is judged by TLC against Python's tree. Literals (int/float/str/True/False/None), keyword arguments, nested calls, quote style and {e} = I(e) are checked on fixed cases.",
         "ref": "DESIGN.md §3.3, §4 C12",
-        "note": "Trusted: the recording operand class (comparisons with a constant on the left are reflected by Python and excluded), CPython's eval/ast as ground truth. Chained comparisons, keyword repetition and unsupported operators are outside the domain. Open findings KF_C12_pow, KF_C12_name_parens.",
+        "note": "Trusted: the recording operand class (comparisons with a constant on the left are reflected by Python and excluded), CPython's eval/ast as ground truth. Chained comparisons, keyword repetition and unsupported operators are outside the domain. Open finding KF_C12_pow.",
     },
     "C14": {
         "technique": "TLA+ spec in exact rational arithmetic (Transforms.tla: contracts = Abs; percentile knots, Cox-de Boor recursion, three-term recurrence and the branch table of BSpline._initialize = Impl) model checked with TLC on all small integer inputs; exact values replayed into formulae.transforms at 1e-9; TLC as exact oracle for harness-chosen longer inputs",
-        "text": "TLC proves in exact rationals, for every integer vector of length 3..4 over 0..3 and degree 1..3, that center has mean zero, scale has unit population variance, the poly recurrence gives mutually orthogonal columns orthogonal to the constant; for every non-constant vector of length 4 over 0..2 (quick) / 4..5 over 0..4 (thorough) x 0..2 inner knots x degree 0..3 x intercept x explicit boundary knots 0 or 1 beyond the data on either side that the B-spline basis on percentile knots has the documented number of columns, is non-negative and sums to one (also on later data with remembered knots); and that the branch table of BSpline._initialize equals the documented refusal rules on all 5600 parameter classes. Every case is replayed into the real Center/Scale/Polynomial/BSpline objects (training call, then later data on the same instance; raw=True = powers; explicit knots = df) and compared with the exact values. Longer vectors with ties are decided with the spec as oracle.",
+        "text": "TLC proves in exact rationals, for every integer vector of length 3..4 over 0..3 and degree 1..3, that center has mean zero, scale has unit population variance, the poly recurrence gives mutually orthogonal columns orthogonal to the constant; for every non-constant vector of length 4 over 0..2 (quick) / 4..5 over 0..4 (thorough) x 0..2 inner knots x degree 0..3 x intercept x explicit boundary knots 0 or 1 beyond the data on either side that the B-spline basis on percentile knots has the documented number of columns, is non-negative and sums to one (also on later data with remembered knots); and that the branch table of BSpline._initialize equals the documented refusal rules on all 5600 parameter classes. Every case is replayed into the real Center/Scale/Polynomial/BSpline objects (training call, then later data on the same instance; raw=True = powers; explicit knots = df) and compared with the exact values. center / scale / standardize / poly are also reached by name through a formula (design built on x, then evaluated on the later data) and must give the values of the judged objects. Longer vectors with ties are decided with the spec as oracle.",
         "ref": "DESIGN.md §3.10, §4 C14, §8",
         "note": "NOT decided by this technique: accuracy under large offsets / ill-conditioning, degree > 3, long vectors (TLC has 32-bit integers and no floats). Irrational outputs (scale, orthonormal poly) are compared through their squares and signs. Open finding KF_C14_knot_at_upper_bound.",
     },
     "C16": {
-        "technique": "TLA+ judge (Design_Trace build / unseen / rows / refuse clauses over Design.tla's label meaning) applied to recorded helper calls at training and prediction time",
-        "text": "Random worlds, one helper per event: binary/B with explicit and default success level on str and numeric variables (and new frames lacking that level), offset of a column, a call and positive / negative / float constants (training and new frames with changed values), prop/p/proportion with positional, keyword and constant trials (training response; trials of the new frame at prediction), I(e)/{e}; alias pairs (B=binary, p=prop=proportion, standardize=scale, T(x,r)=C(x,Treatment(r)), S(x,o)=C(x,Sum(o))) as row relations; invalid arguments (success level absent in training, successes > trials, fractional successes, offset as response, prop as predictor, offset of a factor) must be refused. TLC evaluates the meaning of each column's label on the recorded frame and compares every cell.",
+        "technique": "TLA+ spec (Helpers.tla: binary / offset / prop as train-then-predict state machines, pointwise meaning and frozen success level as invariants) model checked with TLC on every small case, each terminal state replayed through formulas into design_matrices / evaluate_new_data; recorded helper calls on random worlds judged by TLC (Design_Trace build / unseen / rows / refuse clauses over Design.tla's label meaning)",
+        "text": "TLC enumerates every training column of <= 3 rows over 3 values x every success level / constant / trials argument (omitted, occurring, never occurring) x every new column of <= 2 (thorough 3) rows over 4 values (incl. unseen), proves Meaning, BinaryPointwise, NewShape and the action property Frozen on the object-level machine and exports each terminal state; every case is written as a formula (integer and string renderings, B/binary, prop/p/proportion, positional and keyword spellings), built and evaluated on the new frame by the real code and compared with the spec's columns and refusals. Random worlds, one helper per event: binary/B with explicit and default success level on str and numeric variables (and new frames lacking that level), offset of a column, a call and positive / negative / float constants (training and new frames with changed values), prop/p/proportion with positional, keyword and constant trials (training response; trials of the new frame at prediction), I(e)/{e}; alias pairs (B=binary, p=prop=proportion, standardize=scale, T(x,r)=C(x,Treatment(r)), S(x,o)=C(x,Sum(o))) as row relations; invalid arguments (success level absent in training, successes > trials, fractional successes, offset as response, prop as predictor, offset of a factor) must be refused. TLC evaluates the meaning of each column's label on the recorded frame and compares every cell.",
         "ref": "DESIGN.md §4 C16",
-        "note": "Trusted: the label assigned to a helper's column by fv/drivers/c16.py (taken from the statement); integer data. No separate model-checking run: the state space is the recorded trace.",
+        "note": "Trusted: the label assigned to a helper's column by fv/drivers/c16.py (taken from the statement); integer data.",
     },
 }
 
